@@ -27,7 +27,7 @@ func NewOutgoingTransfer(id uint64) (t *OutgoingTransfer, w io.Writer) {
 	t = &OutgoingTransfer{
 		Id:         id,
 		startFlag:  true,
-		dataStream: r,
+		dataStream: bufio.NewReader(r),
 	}
 
 	return
@@ -68,6 +68,11 @@ func (t *OutgoingTransfer) NextSegment(mtu uint64) (dtm *msgs.DataTransmissionMe
 	} else if rErr != nil {
 		err = rErr
 		return
+	} else if br, ok := t.dataStream.(*bufio.Reader); ok {
+		// The segment was filled completely: look ahead to set the end flag if no data follows.
+		if _, peekErr := br.Peek(1); peekErr == io.EOF {
+			segFlags |= msgs.SegmentEnd
+		}
 	}
 
 	dtm = msgs.NewDataTransmissionMessage(segFlags, t.Id, buf)
